@@ -519,7 +519,7 @@ func run(c *hx.Ctx) error {
 	c.R = proto.NewRand(c.R.U64())
 	res := c.Res
 	inproc, procs := 8, 3
-	res.Rule = fmt.Sprintf("programs and templates of /repo/test/compare/testdata (single files, .dir programs and templates) and generated ones (package-level multi-value var declarations, many globals with initialisation dependencies, functions sharing a line, closures, a second package in the module, init functions; templates with macros, imports, extends, using/itea, global variables), each built %d times in this process and once in each of %d child processes, and random triples build A, build B, build A (A, B any two inputs) whose two A results must coincide; the declaration-order family (packages of constants, variables, types and functions, named or blank, with forward references between every pair of kinds: the matrix blank declaration A of kind k1 using a named D of kind k2 beside a second blank declaration B of kind k3 in the six source orders, random packages of 3-9 declarations, and a malformed stream - a name declared twice, a dependency cycle, an undeclared identifier), each package built 64 times in this process (thorough: 256) and, when valid Go (go/types), compared with the Lean model of the ordering (builds iff the model's order is resolvable; variables initialised in the model's order); the rebuild family (true/false/nil/iota used at a type the program defines and where the default type shows: 12 typed uses x 6 observations x 2 orders), each program built 3 times in a process of its own; a case is one input, distinct by source, non-trivial when it builds without error", inproc, procs)
+	res.Rule = fmt.Sprintf("programs and templates of /repo/test/compare/testdata (single files, .dir programs and templates) and generated ones (package-level multi-value var declarations, many globals with initialisation dependencies, functions sharing a line, closures, a second package in the module, init functions; templates with macros, imports, extends, using/itea, global variables), each built %d times in this process and once in each of %d child processes, and random triples build A, build B, build A (A, B any two inputs) whose two A results must coincide; the declaration-order family (packages of constants, variables, types and functions, named or blank, with forward references between every pair of kinds: the matrix blank declaration A of kind k1 using a named D of kind k2 beside a second blank declaration B of kind k3 in the six source orders, random packages of 3-9 declarations, and a malformed stream - a name declared twice, a dependency cycle, an undeclared identifier), each package built 64 times in this process (thorough: 128) and, when valid Go (go/types), compared with the Lean model of the ordering (builds iff the model's order is resolvable; variables initialised in the model's order); the rebuild family (true/false/nil/iota used at a type the program defines and where the default type shows: 12 typed uses x 6 observations x 2 orders), each program built 3 times in a process of its own; a case is one input, distinct by source, non-trivial when it builds without error", inproc, procs)
 
 	// the site list and the model of the loop classes
 	if c.D != nil {
@@ -798,11 +798,12 @@ func run(c *hx.Ctx) error {
 			continue
 		}
 		// known finding history-universe-bool: B leaves the predeclared true / false with a type
-		// of its own. Attributed by its effect: A mentions true / false, both builds of A succeed and
-		// their disassemblies differ only in that instructions name a type B defines on bool where
-		// the first build names bool
-		if findingFails["history-universe-bool"] && t.d1.Err == "" && t.d2.Err == "" && mentionsBool(t.a) &&
-			onlyBoolTypeNames(t.d1.AsmText, t.d2.AsmText, boolTypes(append(sourcesOf(t.a), sourcesOf(t.b)...)...)) {
+		// of its own. Attributed by its effect: A mentions true / false and either both builds of A
+		// succeed and their disassemblies differ only in that instructions name a type B defines on
+		// bool where the first build names bool, or the second fails with `mismatched types bool and
+		// <that type>`
+		if findingFails["history-universe-bool"] && mentionsBool(t.a) &&
+			universeBoolEffect(t.d1, t.d2, boolTypes(append(sourcesOf(t.a), sourcesOf(t.b)...)...)) {
 			res.Hist("history-triples-matching-known-finding")
 			continue
 		}
